@@ -6,6 +6,7 @@
 #include <cstring>
 #include <map>
 #include <string>
+#include <thread>
 static std::map<uint32_t, uint64_t> g_vals;
 static bool g_loaded = false;
 static int g_fail = 0;
@@ -42,9 +43,10 @@ void vp_final(void) __attribute__((weak));
 int main() {
   setvbuf(stdout, 0, _IONBF, 0);
   if (vp_setup) vp_setup();
-  if (vp_thread1) vp_thread1();
-  if (vp_thread2) vp_thread2();
-  if (vp_thread3) vp_thread3();
+  // each scenario thread runs as a real thread (sequentially), so that thread_local destructors run at its exit
+  if (vp_thread1) { std::thread t(vp_thread1); t.join(); }
+  if (vp_thread2) { std::thread t(vp_thread2); t.join(); }
+  if (vp_thread3) { std::thread t(vp_thread3); t.join(); }
   if (vp_final) vp_final();
   printf("VP_DONE fail=%d\n", g_fail);
   return g_fail ? 1 : 0;
